@@ -244,10 +244,17 @@ func (c *Compiler) expandModule(module *parse.Module) {
 		}
 		applyToPath := a.ArgSchema()
 		applyToPfx := applyToPath[0].Space
-		applyToMod, err := nod.GetModuleByPrefix(
+		// The prefix is one of the (sub)module in which the augment is
+		// written: an augment that came in from a submodule may use the
+		// prefix of its belongs-to statement, which need not be the
+		// prefix of the module.
+		applyToMod, err := a.GetModuleByPrefix(
 			applyToPfx, c.modules, c.skipUnknown)
 		if err != nil {
 			c.error(nod, err)
+		}
+		if applyToMod != nil && applyToMod.Type() == parse.NodeSubmodule {
+			applyToMod = nod
 		}
 		if applyToMod != nod {
 			if isMandatory(a) {
